@@ -247,7 +247,7 @@ def cases(tier, seed):
         for K in Ks:
             for N in ([rng.choice([3, 7, 10] + ([16] if K <= 5 else []))] if not T else [2, 7, 16 if K <= 9 else 10]):
                 out.append(read_it_case(anyty(), (N,), (K,), isa, ity=ity_for(K, N), form='ctor'))
-                out.append(read_it_case(rng.choice([INT, FLT]), (N,), (K,), isa, ity=ity_for(K, N), form=rng.choice(['assign', 'view1d', 'expr', 'add', 'sub'])))
+                if T or K % 2 or K >= V: out.append(read_it_case(rng.choice([INT, FLT]), (N,), (K,), isa, ity=ity_for(K, N), form=rng.choice(['assign', 'view1d', 'expr', 'add', 'sub'])))
         for ity in ITYS:                      # every index type on one fixed shape, int / float / double parents
             for ty in (INT, FLT, DBL):
                 out.append(read_it_case(ty, (9,), (5,), isa, ity=ity, form='ctor', const=(ty is DBL)))
@@ -285,10 +285,10 @@ def cases(tier, seed):
             out.append(write_it_case(INT, (N,), (K,), rng.choice(INT_OPS), rng.choice(['lit', 'sym']), isa, ity=ity_for(K, N)))
             if N <= 7: out.append(write_it_case(INT, (N,), (K,), rng.choice(INT_OPS), rng.choice(['itview', 'seqview']), isa))
             ty = ftype()
-            for op in (ALL_OPS if T else sample(rng, ALL_OPS, 2)):
+            for op in ((ALL_OPS if T else sample(rng, ALL_OPS, 2)) if N <= 7 else []):       # UF + symbolic scatter: 10 elements / 4 indices ran out of memory
                 out.append(write_it_case(ty, (N,), (K,), op, rng.choice(['tensor', 'lit', 'neg', 'sum']), isa, ity=ity_for(K, N)))
             out.append(write_it_case(INT, (N,), (K,), rng.choice(INT_OPS), 'tensor', isa, macros=VEC))
-            if T: out.append(write_it_case(ftype(), (N,), (K,), rng.choice(ALL_OPS), rng.choice(['tensor', 'lit']), isa, macros=VEC))
+            if T and N <= 7: out.append(write_it_case(ftype(), (N,), (K,), rng.choice(ALL_OPS), rng.choice(['tensor', 'lit']), isa, macros=VEC))
         out.append(write_it_case(INT, (12,), (5,), '=', 'tensor', isa))
         out.append(write_it_case(FLT, (12,), (5,), '=', 'tensor', isa, macros=VEC))       # one full SSE vector + remainder in the vectorised scatter
         if isa in ('avx2', 'avx') or T: out.append(write_it_case(FLT, (16,), (9,), '=', 'tensor', isa, macros=VEC))
@@ -318,7 +318,7 @@ def cases(tier, seed):
                 out.append(mask_write_case(INT, shape, op, rng.choice(['tensor', 'sum']), isa))
             out.append(mask_write_case(INT, shape, rng.choice(INT_OPS), rng.choice(['lit', 'sym']), isa))
             ty = ftype()
-            for op in (ALL_OPS if T else sample(rng, ALL_OPS, 2)):
+            for op in (ALL_OPS if T else sample(rng, ALL_OPS, 1 if prod(shape) in (4, 12) else 2)):
                 out.append(mask_write_case(ty, shape, op, rng.choice(['tensor', 'lit', 'neg', 'sum']), isa))
     seen = set(); res = []
     for c in out:
